@@ -428,6 +428,25 @@ struct StrPool {
             at(o).set_validated(buf);
             { NoWindow nw; extra = ",arg=" + hex(buf); }
         }
+        // ---- the static constructors from numbers (results of 16 characters and more are heap allocated)
+        else if (op == "fromint") {
+            const std::string &ty = f[2]; long long v = i64(f[3]); int base = atoi(f[4].c_str());
+            if (ty == "short") new (mem[o]) S(S::from_int(short(v), base));
+            else if (ty == "int") new (mem[o]) S(S::from_int(int(v), base));
+            else if (ty == "long") new (mem[o]) S(S::from_int(long(v), base));
+            else new (mem[o]) S(S::from_int((long long)v, base));
+            live[o] = true;
+        }
+        else if (op == "fromuint") {
+            const std::string &ty = f[2]; unsigned long long v = u64(f[3]); int base = atoi(f[4].c_str());
+            if (ty == "ushort") new (mem[o]) S(S::from_uint((unsigned short)v, base, true));
+            else if (ty == "uint") new (mem[o]) S(S::from_uint((unsigned int)v, base, true));
+            else if (ty == "ulong") new (mem[o]) S(S::from_uint((unsigned long)v, base, true));
+            else new (mem[o]) S(S::from_uint(v, base, true));
+            live[o] = true;
+        }
+        else if (op == "frombool") { new (mem[o]) S(S::from_bool(atoi(f[2].c_str()) != 0)); live[o] = true; }
+        else if (op == "sfill") { new (mem[o]) S(S::fill(u64(f[2]), char(u64(f[3])))); live[o] = true; }
         else if (op == "extract") {
             // is >> s on a stream that rethrows (exceptions(badbit)): a failing allocation anywhere inside the extraction
             // reaches the caller as std::bad_alloc and the target keeps its value
